@@ -102,7 +102,14 @@ fn run(descs: &[String]) -> Option<String> {
     let names = ["msg", "a", "b_c", "path", "x"];
     let mut tags = Vec::new();
     let mut want = Vec::new();
-    for (i, ds) in descs.iter().enumerate() { let (v, j) = mk(ds); tags.push(tag(names[i % names.len()], v)); want.push((names[i % names.len()].to_string(), j)); }
+    for (i, ds) in descs.iter().enumerate() {
+        // `k:<hex of the name>:<value>` gives the tag a name of its own (tag names are &'static str: leaked)
+        let (name, ds): (&'static str, &str) = match ds.strip_prefix("k:") {
+            Some(r) => { let (h, v) = r.split_once(':').unwrap(); (Box::leak(String::from_utf8(unhex(h)).unwrap().into_boxed_str()), v) }
+            None => (names[i % names.len()], ds.as_str()),
+        };
+        let (v, j) = mk(ds); tags.push(tag(name, v)); want.push((name.to_string(), j));
+    }
     let ev = LogEvent::new(Level::Info, tags);
     let mut out = Vec::new();
     if let Err(e) = ev.write_jsonl(&mut out) { return Some(format!("{d} expected=Ok actual=Err({e})")); }
@@ -126,6 +133,7 @@ fn run(descs: &[String]) -> Option<String> {
     }
     None
 }
+fn unhex(r: &str) -> Vec<u8> { (0..r.len() / 2).map(|i| u8::from_str_radix(&r[2 * i..2 * i + 2], 16).unwrap()).collect() }
 fn hex(s: &str) -> String { s.bytes().map(|b| format!("{b:02x}")).collect() }
 fn main() {
     std::panic::set_hook(Box::new(|_| {}));
@@ -161,6 +169,9 @@ fn main() {
     // several tags: order, separators, a hostile string next to other members
     let hostile = [format!("s:{}", hex("\",\"level\":\"error")), format!("s:{}", hex("x\"}\n{\"a\":\"b")), "i:-1".to_string(), "n:".to_string(), "b:1".to_string(), format!("s:{}", hex("\\"))];
     for a in &hostile { for b in &hostile { try_(vec![a.clone(), b.clone()], &mut n, &mut found); for c in hostile.iter().take(if thorough { 6 } else { 2 }) { try_(vec![a.clone(), b.clone(), c.clone()], &mut n, &mut found); } } }
+    // tag names that need escaping, alone and next to other members (a name is a JSON string like any other)
+    let knames = ["a\"b", "a\\b", "x\":1,\"admin", "a\nb", "\u{1}", "\u{1f}", "\u{7f}", "caf\u{e9}\"s", "caf\u{e9}", "", "a b", "a:b", "a,b", "}", "{", "\t", "\u{2028}", "\u{1f600}", "\\u0041", "/"];
+    for k in knames { for v in ["i:1", "n:", "s:78"] { let d = format!("k:{}:{v}", hex(k)); try_(vec![d.clone()], &mut n, &mut found); try_(vec!["i:-1".to_string(), d.clone(), "b:1".to_string()], &mut n, &mut found); } }
     println!("EVALUATED {n}");
     for f in &found { println!("WITNESS {f}"); }
     std::process::exit(if found.is_empty() { 0 } else { 1 });
